@@ -15,6 +15,9 @@ THEOREMS = [
     "Ural.Props.C01.canon_port",
     "Ural.Props.C01.canon_query",
     "Ural.Props.C01.canon_fragment",
+    "Ural.Props.C01.path_unquote_view",
+    "Ural.Props.C01.path_quote_view",
+    "Ural.Props.C01.canon_path_escaping",
     "Ural.Props.C01.canon_no_new_delimiter",
     "Ural.Props.C01.canon_quoted_no_delimiter",
     "Ural.Canonicalize.canonHost_idem",
@@ -46,7 +49,9 @@ TRUSTED = [
 ]
 ASSUMPTIONS = ["URLs that the parser rejects (ValueError) are outside the property"]
 UNPROVED = (
-    "path clause (same resolved decoded segments and trailing slash) is not yet a theorem: it is "
+    "path clause: proved that unescaping/quoting never change the segment view (path_unquote_view, "
+    "path_quote_view, canon_path_escaping); that normpath + the trailing-slash / empty-path rules compute "
+    "that view on the unescaped path (plain-string dot-segment resolution) is not yet a theorem: it is "
     "checked by the oracle on every case and by the model-vs-implementation comparison; re-parsing of "
     "the printed URL is CPython's urlsplit (oracle re-parses the real output)"
 )
